@@ -15,8 +15,14 @@ def plans(quick):
                  checks=[dict(steps=4, slots=2)],
                  gen=dict(steps=4, slots=1, lists=[['u1'], ['m12'], ['c21']]), cover_limit=150, walks=40,
                  sim=dict(num=60, depth=12)),
+            dict(family='kinds', opts={'gens': True},
+                 gen=dict(steps=3, slots=1, lists=[['k1'], ['k1', 'k2']], fail=False), cover_limit=80, walks=30,
+                 sim=dict(num=60, depth=10)),
         ]
     return [
+        dict(family='kinds', opts={'gens': True}, checks=[dict(steps=4, slots=1)], gen=dict(steps=4, slots=1), walks=200,
+             walk_len=14, sim=dict(num=800, depth=14)),
+    ] + [
         dict(family=f, checks=[dict(steps=5, slots=2), dict(steps=7, slots=2, force=False, fail=False, count=True)],
              gen=dict(steps=5, slots=1), walks=300, walk_len=16, sim=dict(num=1500, depth=16))
         for f in ('chain', 'mounts', 'diamond')
